@@ -50,6 +50,23 @@ fn types() -> &'static Vec<Ty> {
 }
 
 const TAGS: &[u64] = &[16, 17, 18, 96, 97, 98, 15, 19, 95, 99, 0, 1, 24, 61, 255, 256, 55799, 1 << 32, u64::MAX];
+
+/// The base palette plus, for each registered tag t, the numbers that alias t when a tag number is
+/// truncated to 8, 16, 32 or 63 bits (t + 2^8, t + 2^16, t + 2^32, t + 2^63) or byte-swapped.
+fn tags_all() -> &'static Vec<u64> {
+    static T: OnceLock<Vec<u64>> = OnceLock::new();
+    T.get_or_init(|| {
+        let mut v = TAGS.to_vec();
+        for t in [16u64, 17, 18, 96, 97, 98] {
+            for a in [t + (1 << 8), t + (1 << 16), t + (1 << 32), t + (1 << 63), t << 8, t << 56, t + (1 << 31), t + 0xffff_ff00] {
+                if !v.contains(&a) {
+                    v.push(a);
+                }
+            }
+        }
+        v
+    })
+}
 const WIDTHS: [u8; 5] = [0, 1, 2, 4, 8];
 
 /// Body palette: a valid body of every kind (so every type sees bodies valid for itself, valid
@@ -141,8 +158,9 @@ fn exh_sizes() -> [u64; 3] {
     let nt = types().len() as u64;
     let np = palette().len() as u64;
     let ntag = TAGS.len() as u64;
+    let nall = tags_all().len() as u64;
     let nw = WIDTHS.len() as u64;
-    [nt * np * ntag * nw, nt * np * ntag * ntag, nt * np]
+    [nt * np * nall * nw, nt * np * ntag * ntag, nt * np]
 }
 
 fn exh_count(_t: Tier) -> u64 {
@@ -161,8 +179,9 @@ fn exh_case(idx: u64, ctx: &mut Ctx) -> CaseResult {
     i /= np;
     match seg {
         0 => {
-            let n = TAGS[(i % ntag) as usize];
-            let w = WIDTHS[((i / ntag) % nw) as usize];
+            let nall = tags_all().len() as u64;
+            let n = tags_all()[(i % nall) as usize];
+            let w = WIDTHS[((i / nall) % nw) as usize];
             ctx.class("exh:single-tag");
             check(t, &[(n, w)], body, ctx)
         }
@@ -186,8 +205,15 @@ fn case(g: &mut Gen, ctx: &mut Ctx) -> CaseResult {
     for _ in 0..ntags {
         let n = match g.weighted(&[4, 3, 2]) {
             0 => t.tag,
-            1 => *g.pick(TAGS),
-            _ => g.u64(),
+            1 => *g.pick(tags_all()),
+            _ => {
+                // random, often an alias of the registered tag under truncation
+                if g.bool() {
+                    t.tag.wrapping_add(g.u64() << *g.pick(&[8u32, 16, 32, 48]))
+                } else {
+                    g.u64()
+                }
+            }
         };
         if n == 2 || n == 3 {
             continue;
@@ -210,7 +236,7 @@ pub fn property() -> Property {
     Property {
         id: "C14",
         title: "Tagged forms carry exactly the structure's registered CBOR tag",
-        rule: "6 taggable types x tag numbers {the six registered, neighbours 15/19/95/99, 0, 1, 24, 61, 255, 256, 55799, 2^32, 2^64-1} x every legal tag-head width x a body palette \
+        rule: "6 taggable types x tag numbers {the six registered, neighbours 15/19/95/99, 0, 1, 24, 61, 255, 256, 55799, 2^32, 2^64-1, and every alias of a registered tag under truncation to 8/16/31/32/63 bits or byte shifts} x every legal tag-head width x a body palette \
                (valid body of each of the 8 structures in two variants, invalid items), all double-tag combinations, and generated bodies/tags; \
                non-trivial = the body is accepted untagged by the type; distinct by (type, full input bytes)",
         assumptions: &["tag table transcribed from RFC 8152 table 1 (98/18/96/16/97/17); tag numbers 2 and 3 are not used (ciborium reads them as bignums)"],
